@@ -391,8 +391,17 @@ pub fn glide(r: &mut Rng, n: usize, out: &mut Vec<String>) {
 
 /// sample rates for which the harness has a monomorphised controller of exactly the helper's capacity
 pub fn ribbon_rates() -> Vec<(f32, usize)> {
+    // every multiple of 500 Hz up to 50 kHz, the usual audio and control rates, and the extremes: whichever of them has
+    // a monomorphised buffer of the capacity the crate's own helper asks for
+    let mut rates: Vec<u32> = (1..=100).map(|k| k * 500).collect();
+    rates.extend([
+        100u32, 250, 750, 6500, 7350, 11025, 15625, 22050, 37500, 44100, 56000, 64000, 88200, 90000, 96000, 101000, 104000, 112000, 128000,
+        176400, 180000, 192000,
+    ]);
+    rates.sort();
+    rates.dedup();
     let mut v = Vec::new();
-    for sr in [100u32, 250, 500, 750, 1000, 1500, 2500, 4000, 8000, 10000, 11025, 12500, 15625, 22050, 32000, 37500, 44100, 48000, 96000, 192000] {
+    for sr in rates {
         let cap = synth_utils::ribbon_controller::sample_rate_to_capacity(std::hint::black_box(sr));
         if RIBBON_CAPS.contains(&cap) {
             v.push((sr as f32, cap));
@@ -1232,11 +1241,680 @@ pub fn midi_bytes(r: &mut Rng, n: usize, out: &mut Vec<String>) {
     }
 }
 
+// ---------------------------------------------------------------------------------------------------
+// "fine" streams: thin slices of the input space that uniform generation practically never reaches -- exact equalities
+// between parameters, exact ratios, values from tiny pools repeated verbatim, state parked next to special positions,
+// long runs that make counters wrap, chained small changes.  They exist because seeded changes of the "needle in a
+// haystack" kind (DESIGN.md §12.6, round 3) showed what the broad streams miss.
+
+/// LFO: tiny frequencies and frequency changes, frequency == sample rate, exact power-of-two ratios run to the special
+/// counter values, slow crossings of the half/quarter points, the peaks and the wrap
+/// an in-range LFO frequency (0 ..= sample rate) and a finite phase, for streams that also serve the no-panic property
+fn lfo_freq_in(r: &mut Rng, sr: f32) -> u32 {
+    let f = match r.below(6) {
+        0 => 0.0,
+        1 => sr,
+        2 => sr / (1u32 << r.range(1, 23)) as f32,
+        3 => r.log_uniform(1e-3, sr as f64) as f32,
+        _ => r.log_uniform(0.01, 50.0) as f32,
+    };
+    b(f.min(sr))
+}
+fn lfo_phase_fin(r: &mut Rng) -> u32 {
+    loop {
+        let x = lfo_phase(r);
+        if f32::from_bits(x).is_finite() {
+            return x;
+        }
+    }
+}
+
+pub fn lfo_fine(r: &mut Rng, n: usize, out: &mut Vec<String>) {
+    let mut left = n as i64;
+    while left > 0 {
+        let sr = r.pick(&[100.0f32, 1000.0, 1024.0, 12000.0, 16384.0, 44100.0, 48000.0, 65536.0, 96000.0, 192000.0]);
+        out.push(format!("lfo new {}", b(sr)));
+        match r.below(8) {
+            0 => {
+                // a frequency, then nearly the same frequency
+                let f = r.log_uniform(0.01, 50.0) as f32;
+                out.push(format!("freq {}", b(f)));
+                for _ in 0..r.range(2, 20) {
+                    out.push("tick".into());
+                }
+                let d = r.pick(&[1e-6f32, 1e-5, 5e-5, 1e-4, 2e-4, 1e-3, -1e-5, -1e-4]);
+                out.push(format!("freq {}", b(f + d)));
+                for _ in 0..r.range(2, 40) {
+                    out.push("tick".into());
+                }
+                left -= 60;
+            }
+            1 => {
+                // stop a running oscillator
+                out.push(format!("freq {}", lfo_freq_in(r, sr)));
+                for _ in 0..r.range(1, 10) {
+                    out.push("tick".into());
+                }
+                out.push(format!("freq {}", b(r.pick(&[0.0f32, -0.0, f32::from_bits(1), 1e-30]))));
+                for _ in 0..r.range(2, 10) {
+                    out.push("tick".into());
+                }
+                left -= 22;
+            }
+            2 => {
+                // frequency exactly the sample rate (and its neighbours), from a non-zero phase
+                out.push(format!("phase {}", lfo_phase_fin(r)));
+                let f = r.pick(&[sr, f32::from_bits(b(sr) - 1), sr * 0.75, sr / 2.0, sr / 4.0]);
+                out.push(format!("freq {}", b(f)));
+                for _ in 0..r.range(2, 12) {
+                    out.push("tick".into());
+                }
+                left -= 14;
+            }
+            3 => {
+                // below one count per tick
+                let f = (sr as f64 / 16777216.0) * r.pick(&[0.1f64, 0.5, 0.9, 0.999, 1.0, 1.001, 1.5]);
+                out.push(format!("freq {}", b(f as f32)));
+                if r.chance(1, 2) {
+                    out.push(format!("setacc {}", r.pick(&[0u32, 1 << 23, (1 << 24) - 1, 1 << 22])));
+                }
+                for _ in 0..r.range(2, 10) {
+                    out.push("tick".into());
+                }
+                left -= 12;
+            }
+            4 | 5 => {
+                // park next to a special position, cross it slowly
+                let special = r.pick(&[
+                    1u32 << 23,
+                    1 << 22,
+                    3 << 22,
+                    0,
+                    255 << 14,
+                    256 << 14,
+                    767 << 14,
+                    768 << 14,
+                    512 << 14,
+                    1023 << 14,
+                    511 << 14,
+                ]);
+                let inc = r.range(1, 40) as u32;
+                let back = inc * r.range(1, 6) as u32 + r.below(inc as u64) as u32;
+                let start = special.wrapping_sub(back) & 0xFF_FFFF;
+                out.push(format!("freq {}", b((sr as f64 * inc as f64 / 16777216.0) as f32)));
+                out.push(format!("setacc {}", start));
+                for _ in 0..r.range(8, 16) {
+                    out.push("tick".into());
+                }
+                left -= 20;
+            }
+            6 => {
+                // exact power-of-two ratio from reset: lands exactly on 2^23 and on the wrap
+                let k = r.range(1, 11) as u32;
+                out.push(format!("freq {}", b(sr / (1u32 << k) as f32)));
+                if r.chance(1, 2) {
+                    out.push("reset".into());
+                }
+                for _ in 0..((1u32 << k) + 2) {
+                    out.push("tick".into());
+                }
+                left -= (1i64 << k) + 4;
+            }
+            _ => {
+                // the phases next to a whole cycle
+                let p = r.pick(&[0.99999994f32, -0.99999994, 0.9999999, 0.50000006, 0.49999997, 0.25, 0.75, 1.0, -1.0, 0.99999988]);
+                out.push(format!("phase {}", b(p)));
+                out.push(format!("freq {}", lfo_freq_in(r, sr)));
+                for _ in 0..r.range(1, 4) {
+                    out.push("tick".into());
+                }
+                left -= 6;
+            }
+        }
+    }
+}
+
+/// ADSR: sub-sample phases at low rates with exact products, the longest phases at the highest rates (parked near their
+/// end), parameters that are bit-equal to one another, changes of the running phase's time in mid-phase
+pub fn adsr_fine(r: &mut Rng, n: usize, out: &mut Vec<String>) {
+    let mut left = n as i64;
+    while left > 0 {
+        match r.below(5) {
+            0 | 1 => {
+                // time * rate = 1/k exactly, or just a bit off; low rates
+                let sr = r.pick(&[100.0f32, 125.0, 128.0, 200.0, 240.0, 250.0, 256.0, 400.0, 450.0, 500.0, 512.0, 800.0, 999.0, 1000.0]);
+                out.push(format!("adsr new {}", b(sr)));
+                let k = r.pick(&[1.0f32, 2.0, 3.0, 4.0, 5.0, 8.0, 10.0]);
+                let t = 1.0 / (k * sr);
+                let t = r.pick(&[t, t * 0.999, t * 1.001, 0.001, 0.0019, 0.0099]);
+                for key in ["a", "d", "r"] {
+                    if r.chance(2, 3) {
+                        out.push(format!("set {} {}", key, b(t)));
+                    }
+                }
+                out.push(format!("set s {}", level(r)));
+                out.push("gate_on".into());
+                for _ in 0..r.range(3, 12) {
+                    out.push("tick".into());
+                }
+                out.push("gate_off".into());
+                for _ in 0..r.range(3, 12) {
+                    out.push("tick".into());
+                }
+                left -= 30;
+            }
+            2 => {
+                // the slowest phases: increment 4 or 5; parked near the end so the phase end is seen
+                let sr = r.pick(&[192000.0f32, 176400.0, 180000.0, 168000.0, 96000.0]);
+                out.push(format!("adsr new {}", b(sr)));
+                let t = r.pick(&[20.0f32, 19.0, 18.0, 17.5, 17.0, 25.0]);
+                for key in ["a", "d", "r"] {
+                    out.push(format!("set {} {}", key, b(t)));
+                }
+                out.push("gate_on".into());
+                out.push("tick".into());
+                let back = r.range(1, 40) as u32;
+                out.push(format!("setacc {}", (1u32 << 24) - back));
+                for _ in 0..12 {
+                    out.push("tick".into());
+                }
+                left -= 20;
+            }
+            _ => {
+                // bit-equal parameters, and a time changed in mid-phase to the value of another parameter
+                let sr = r.pick(&[1000.0f32, 8000.0, 48000.0]);
+                out.push(format!("adsr new {}", b(sr)));
+                let pool: Vec<f32> = vec![0.05, 2.0, r.log_uniform(0.002, 0.5) as f32];
+                for key in ["a", "d", "r"] {
+                    out.push(format!("set {} {}", key, b(r.pick(&pool))));
+                }
+                out.push(format!("set s {}", b(0.5)));
+                out.push("gate_on".into());
+                for _ in 0..r.range(1, 30) {
+                    out.push("tick".into());
+                }
+                if r.chance(1, 2) {
+                    out.push("gate_off".into());
+                    for _ in 0..r.range(1, 10) {
+                        out.push("tick".into());
+                    }
+                }
+                let key = r.pick(&["a", "d", "r"]);
+                out.push(format!("set {} {}", key, b(r.pick(&pool))));
+                for _ in 0..r.range(20, 120) {
+                    out.push("tick".into());
+                }
+                left -= 160;
+            }
+        }
+    }
+}
+
+/// MIDI: tiny value pools with verbatim repeats, controller sandwiches around Reset-All-Controllers, every controller
+/// number with value 0, unterminated SysEx before each status byte, foreign-channel echoes of held notes, exactly 32 and
+/// 33 keys, long runs of real-time bytes
+pub fn midi_fine(r: &mut Rng, n: usize, out: &mut Vec<String>) {
+    let mut left = n as i64;
+    let mut long_done = false;
+    while left > 0 {
+        let ch = r.pick(&[0u64, 1, 9, 14, 15, 15, 16, 200]);
+        out.push(format!("midi new {}", ch));
+        let c = ch.min(15);
+        let notes = [0u64, 1, 60, 61, 127];
+        let vels = [1u64, 64, 127];
+        let bends = [(0u64, 0u64), (0, 64), (127, 127), (82, 9), (1, 64), (127, 63)];
+        let mut emit = |out: &mut Vec<String>, bytes: &[u64]| {
+            for by in bytes {
+                out.push(format!("byte {}", by));
+            }
+        };
+        out.push(format!("retrig {}", r.below(2)));
+        out.push(format!("prio {}", r.below(3)));
+        match r.below(8) {
+            0 => {
+                // pools + verbatim repeats of note messages, polled in between
+                for _ in 0..r.range(10, 60) {
+                    let note = r.pick(&notes);
+                    let vel = r.pick(&vels);
+                    let msg: Vec<u64> = match r.below(6) {
+                        0 | 1 | 2 => vec![0x90 + c, note, vel],
+                        3 => vec![0x80 + c, note, 0],
+                        4 => vec![0x90 + c, note, 0],
+                        _ => vec![0x90 + (c + 1) % 16, note, r.pick(&[0u64, 64])],
+                    };
+                    emit(out, &msg);
+                    if r.chance(1, 3) {
+                        emit(out, &msg);
+                    }
+                    match r.below(6) {
+                        0 => out.push("rising".into()),
+                        1 => out.push("falling".into()),
+                        2 => out.push(format!("prio {}", r.below(3))),
+                        3 => out.push(format!("retrig {}", r.below(2))),
+                        _ => {}
+                    }
+                }
+                left -= 200;
+            }
+            1 => {
+                // controller / bend sandwiches around CC 121
+                for _ in 0..r.range(3, 12) {
+                    let (l, m) = r.pick(&bends);
+                    let bend = vec![0xE0 + c, l, m];
+                    let cc_no = r.pick(&[1u64, 7, 71, 74, 5, 64, 65]);
+                    let cc = vec![0xB0 + c, cc_no, r.pick(&[0u64, 63, 64, 127])];
+                    let reset = vec![0xB0 + c, 121, r.pick(&[0u64, 0, 1, 127])];
+                    let seq: Vec<&Vec<u64>> = match r.below(5) {
+                        0 => vec![&bend, &reset, &bend],
+                        1 => vec![&reset, &bend, &reset],
+                        2 => vec![&bend, &cc, &reset],
+                        3 => vec![&cc, &reset, &cc],
+                        _ => vec![&cc, &bend, &reset, &bend, &cc],
+                    };
+                    for m in seq {
+                        emit(out, m);
+                    }
+                }
+                left -= 100;
+            }
+            2 => {
+                // every controller number with a few values while a note is held, polled after each
+                emit(out, &[0x90 + c, 60, 100]);
+                out.push("rising".into());
+                for cc in 0..128u64 {
+                    let v = r.pick(&[0u64, 0, 1, 64, 127]);
+                    emit(out, &[0xB0 + c, cc, v]);
+                    if cc >= 120 || r.chance(1, 8) {
+                        out.push("falling".into());
+                        out.push("rising".into());
+                        emit(out, &[0x90 + c, 60, 100]);
+                        out.push("rising".into());
+                    }
+                }
+                left -= 600;
+            }
+            3 => {
+                // an unterminated SysEx, then some status byte and its data, in running status too
+                for _ in 0..r.range(2, 8) {
+                    emit(out, &[0xF0, r.below(128), r.below(128)]);
+                    let st = r.pick(&[0x80u64, 0x90, 0xB0, 0xE0]) + r.pick(&[c, 0, 15, (c + 1) % 16]);
+                    let (d1, d2) = (r.pick(&[0u64, 60, 64, 127]), r.pick(&[0u64, 1, 64, 127]));
+                    emit(out, &[st, d1, d2]);
+                    if r.chance(1, 2) {
+                        emit(out, &[r.pick(&[0u64, 60, 127]), r.pick(&[0u64, 64, 127])]);
+                    }
+                    if r.chance(1, 2) {
+                        emit(out, &[r.pick(&[0xF7u64, 0xF6, 0xF1, 0xF8])]);
+                    }
+                }
+                left -= 60;
+            }
+            4 => {
+                // exactly 31, 32, 33 keys; the 33rd new or already held; then everything released one by one
+                let k = r.pick(&[31u64, 32, 32, 33, 34]);
+                let base = r.pick(&[0u64, 20, 60, 90]);
+                for i in 0..k {
+                    emit(out, &[0x90 + c, (base + i) % 128, r.pick(&vels)]);
+                    if r.chance(1, 4) {
+                        out.push("rising".into());
+                    }
+                }
+                if r.chance(1, 2) {
+                    emit(out, &[0x90 + c, base % 128, 64]);
+                }
+                let upto = if r.chance(1, 2) { k } else { 32 };
+                for i in 0..upto {
+                    emit(out, &[0x80 + c, (base + i) % 128, 0]);
+                    if r.chance(1, 6) {
+                        out.push("falling".into());
+                    }
+                }
+                emit(out, &[0x90 + c, r.pick(&notes), 64]);
+                out.push("rising".into());
+                out.push("falling".into());
+                left -= 250;
+            }
+            5 if !long_done && n >= 50_000 => {
+                // a long run of real-time bytes, also in the middle of a message
+                long_done = true;
+                emit(out, &[0x90 + c, 60]);
+                for _ in 0..65_600 {
+                    out.push("byte 248".into());
+                }
+                emit(out, &[100]);
+                out.push("rising".into());
+                left -= 65_700;
+            }
+            _ => {
+                // foreign-channel echoes of what is held
+                emit(out, &[0x90 + c, 60, 100, 0x90 + c, 64, 100]);
+                for _ in 0..r.range(3, 12) {
+                    let other = (c + r.range(1, 15)) % 16;
+                    let msg = match r.below(4) {
+                        0 => vec![0x90 + other, r.pick(&[60u64, 64]), 0],
+                        1 => vec![0x80 + other, r.pick(&[60u64, 64]), 64],
+                        2 => vec![0xB0 + other, r.pick(&[123u64, 121, 120]), 0],
+                        _ => vec![0xE0 + other, 0, 0],
+                    };
+                    emit(out, &msg);
+                    out.push("falling".into());
+                }
+                left -= 60;
+            }
+        }
+    }
+}
+
+/// quantizer: long runs of scale edits between two conversions of the same input, raw note numbers above 11, scales built
+/// by allow vs by forbid, inputs next to integer volts, the top of the range, the first conversion after an edit
+pub fn quant_fine(r: &mut Rng, n: usize, out: &mut Vec<String>) {
+    let mut left = n as i64;
+    while left > 0 {
+        out.push("quant new".to_string());
+        match r.below(8) {
+            0 => {
+                // k edits between two conversions of the same input
+                let v = quant_input(r);
+                out.push(format!("convert {}", v));
+                let k = r.pick(&[1u64, 2, 3, 254, 255, 256, 257, 512]);
+                for i in 0..k {
+                    let note = if i + 1 == k { r.below(12) } else { r.below(12) };
+                    out.push(format!("{} {}", if i % 2 == 0 { "forbid" } else { "allow" }, note));
+                }
+                if r.chance(1, 2) {
+                    out.push(format!("forbid {}", r.below(12)));
+                }
+                out.push(format!("convert {}", v));
+                out.push(format!("convert {}", v));
+                left -= k as i64 + 4;
+            }
+            1 => {
+                // raw note numbers, then empty the scale
+                out.push(format!("allow {}", r.pick(&[12u64, 13, 15, 16, 255, 11])));
+                let mut all: Vec<u64> = (0..12).collect();
+                if r.chance(1, 2) {
+                    all.reverse();
+                }
+                out.push(format!("forbid {}", all.iter().map(|x| x.to_string()).collect::<Vec<_>>().join(" ")));
+                for _ in 0..4 {
+                    out.push(format!("convert {}", quant_input(r)));
+                }
+                left -= 8;
+            }
+            2 => {
+                // forbid the held class and bring it back without converting; identical input again after an allow
+                let v = quant_input(r);
+                out.push(format!("convert {}", v));
+                let pc = r.below(12);
+                out.push(format!("forbid {}", pc));
+                out.push(format!("allow {}", pc));
+                out.push(format!("convert {}", v.wrapping_add(r.pick(&[0u32, 1, 500, 3000]))));
+                out.push(format!("allow {}", r.below(12)));
+                out.push(format!("convert {}", v));
+                left -= 7;
+            }
+            3 => {
+                // sparse scales and the octave seams: a few microvolts under an integer voltage, mid-octave, just over it
+                let mask = r.pick(&[0b1u64, 0b11, 0b100000000000, 0b100000000001, 0b10, 0b101, 0b1000000]);
+                let forb: Vec<String> = (0..12).filter(|i| mask >> i & 1 == 0).map(|i| i.to_string()).collect();
+                if r.chance(1, 2) {
+                    out.push(format!("forbid {}", forb.join(" ")));
+                } else {
+                    // the same scale built with allow
+                    out.push("forbid 0 1 2 3 4 5 6 7 8 9 10 11".into());
+                    let al: Vec<String> = (0..12).filter(|i| mask >> i & 1 == 1).map(|i| i.to_string()).collect();
+                    out.push(format!("allow {}", al.join(" ")));
+                    if mask & (1 << 11) == 0 {
+                        out.push("forbid 11".into());
+                    }
+                }
+                for _ in 0..6 {
+                    let o = r.below(11) as f64;
+                    let f = r.pick(&[-4e-6f64, -2e-6, -1e-6, 0.0, 1e-6, 0.5, 0.5416, 0.55, 0.58, 0.5833, 0.59, 0.0833, 0.088, 0.0917]);
+                    out.push(format!("convert {}", b((o + f) as f32)));
+                    if r.chance(1, 3) {
+                        out.push("quant new".into());
+                        out.push(format!("forbid {}", forb.join(" ")));
+                    }
+                }
+                left -= 12;
+            }
+            4 => {
+                // the top of the range with a note held just under it
+                let scale = r.pick(&["", "forbid 0", "forbid 0 1", "forbid 11"]);
+                if !scale.is_empty() {
+                    out.push(scale.into());
+                }
+                out.push(format!("convert {}", b(r.pick(&[9.95f32, 9.92, 9.99, 9.9999]))));
+                for x in [10.0f32, 10.004, 10.0083, 10.009, 9.9999, 10.5, 11.0] {
+                    if r.chance(2, 3) {
+                        out.push(format!("convert {}", b(x)));
+                    }
+                }
+                left -= 8;
+            }
+            5 => {
+                // first conversion after an edit, small voltages
+                if r.chance(1, 2) {
+                    let pc = r.below(12);
+                    out.push(format!("forbid {}", pc));
+                    out.push(format!("allow {}", pc));
+                }
+                out.push(format!("convert {}", b(r.pick(&[0.084f32, 0.088, 0.0915, 0.05, 0.0, 0.17]))));
+                left -= 3;
+            }
+            6 => {
+                // the mirror image of the range and far-away values, as the first input and later (any value is legal)
+                if r.chance(1, 3) {
+                    out.push(format!("forbid {}", r.below(12)));
+                }
+                for _ in 0..r.range(1, 4) {
+                    let k = r.below(133) as f64;
+                    let v = r.pick(&[-10.0f64, -9.95, -10.005, -9.91, -(k / 12.0), -(k / 12.0) - 0.004, -0.04, -1.0, -100.0, 100.0, 20.0, 1.0e6, -1.0e6, 3.0e38, -3.0e38]);
+                    out.push(format!("convert {}", b(v as f32)));
+                }
+                out.push(format!("convert {}", quant_input(r)));
+                left -= 5;
+            }
+            _ => {
+                // chromatic, a few tens of microvolts around every semitone of the upper octaves
+                let k = r.range(36, 121) as f64;
+                for d in [-3e-5f64, -1e-5, -4e-6, -1e-6, 0.0, 2e-6] {
+                    out.push("quant new".into());
+                    out.push(format!("convert {}", b((k / 12.0 + d) as f32)));
+                }
+                left -= 12;
+            }
+        }
+    }
+}
+
+/// glide: chains of small time changes, tiny steps, the exact off setting
+pub fn glide_fine(r: &mut Rng, n: usize, out: &mut Vec<String>) {
+    let mut left = n as i64;
+    while left > 0 {
+        let sr = r.pick(&[1000.0f32, 2000.0, 8000.0, 15600.0, 31200.0, 44100.0, 48000.0, 850.0, 1900.0]);
+        out.push(format!("glide new {}", b(sr)));
+        match r.below(3) {
+            0 => {
+                // a slow knob sweep: every request within 0.05 s of the previous one
+                let mut t = r.pick(&[0.2f32, 0.5, 1.0, 0.12]);
+                out.push(format!("time {}", b(t)));
+                let d = r.pick(&[0.04f32, -0.04, 0.03, 0.049, -0.02]);
+                for _ in 0..r.range(3, 25) {
+                    t = (t + d).max(0.0);
+                    out.push(format!("time {}", b(t)));
+                    if r.chance(1, 3) {
+                        out.push(format!("proc {}", b(0.0)));
+                    }
+                }
+                // then a step response under whatever is in effect now
+                let steps = ((t.max(0.12) * sr) as usize).min(6000);
+                for _ in 0..3 {
+                    out.push(format!("proc {}", b(0.0)));
+                }
+                for _ in 0..steps + 4 {
+                    out.push(format!("proc {}", b(1.0)));
+                }
+                left -= steps as i64 + 40;
+            }
+            1 => {
+                // tiny steps with a fast setting, from a settled level
+                let t = (r.range(100, 400) as f32) / sr;
+                out.push(format!("time {}", b(t)));
+                let base = r.pick(&[0.0f32, 1.0, -2.5]);
+                if base != 0.0 {
+                    out.push(format!("time {}", b(0.0)));
+                    for _ in 0..12 {
+                        out.push(format!("proc {}", b(base)));
+                    }
+                    out.push(format!("time {}", b(t)));
+                } else {
+                    for _ in 0..3 {
+                        out.push(format!("proc {}", b(0.0)));
+                    }
+                }
+                let step = r.pick(&[1.5e-4f32, 5e-5, 3e-4, 1e-3, -2e-4, 0.01]);
+                let nn = (t * sr) as usize + 8;
+                for _ in 0..nn {
+                    out.push(format!("proc {}", b(base + step)));
+                }
+                left -= nn as i64 + 30;
+            }
+            _ => {
+                // off / on / off around a held input
+                for t in [0.0f32, 0.3, 0.0, -0.0, 0.3, 0.0] {
+                    if r.chance(3, 4) {
+                        out.push(format!("time {}", b(t)));
+                    }
+                    let x = r.pick(&[1.0f32, -1.0, 0.5]);
+                    for _ in 0..r.range(2, 12) {
+                        out.push(format!("proc {}", b(x)));
+                    }
+                }
+                left -= 50;
+            }
+        }
+    }
+}
+
+/// ribbon: many sample rates with the helper's capacity, pull-up exactly equal to the divider, samples exactly on the
+/// boundary, patterns whose period is the buffer length, very low rates with gaps
+pub fn ribbon_fine(r: &mut Rng, n: usize, out: &mut Vec<String>) {
+    let all = ribbon_rates();
+    let usable: Vec<(f32, usize)> = all.iter().copied().filter(|x| x.1 <= 900).collect();
+    let mut left = n as i64;
+    while left > 0 {
+        let (sr, cap) = r.pick(&usable);
+        let (sp, dr, pu) = match r.below(5) {
+            0 => (20e3f32, 820.0f32, 20820.0f32),
+            1 => (10e3, 0.0, 10e3),
+            2 => (10e3, 10e3, 20e3),
+            3 => (15e3, 1e3, 1e6),
+            _ => (20e3, 820.0, 30e3),
+        };
+        out.push(format!("ribbon new {} {} {} {} {}", cap, b(sr), b(sp), b(dr), b(pu)));
+        let boundary = 1.0 - (dr / (dr + sp));
+        let ignore = (sr as usize) / 1000;
+        let need = cap + ignore;
+        let lvl = (r.unit() as f32) * boundary * 0.9;
+        match r.below(5) {
+            0 => {
+                // a press, then samples exactly on the boundary (lifted), then more in-range samples
+                for _ in 0..need + 2 {
+                    out.push(format!("poll {}", b(lvl)));
+                }
+                for _ in 0..r.range(1, 3) {
+                    out.push(format!("poll {}", b(boundary)));
+                }
+                out.push("jr".into());
+                for _ in 0..need / 2 + 1 {
+                    out.push(format!("poll {}", b(lvl)));
+                }
+                out.push(format!("poll {}", b(boundary)));
+                for _ in 0..need / 2 + 2 {
+                    out.push(format!("poll {}", b(lvl)));
+                }
+                out.push("jp".into());
+                left -= 2 * need as i64 + 10;
+            }
+            1 => {
+                // runs one short of / exactly / one more than the capture time, after a glitch inside the settling time
+                for extra in [-1i64, 0, 1] {
+                    if ignore > 1 && r.chance(1, 2) {
+                        out.push(format!("poll {}", b(lvl)));
+                        out.push(format!("poll {}", b(1.0)));
+                    }
+                    let run = (need as i64 + extra).max(1) as usize;
+                    for _ in 0..run {
+                        out.push(format!("poll {}", b(lvl)));
+                    }
+                    out.push("jp".into());
+                    out.push(format!("poll {}", b(1.0)));
+                    out.push("jr".into());
+                }
+                left -= 3 * need as i64 + 12;
+            }
+            2 => {
+                // held, flicked away (in range) and back to the same code; and a wobble with the buffer's period
+                let other = (lvl * 0.5).max(0.0);
+                for _ in 0..need + 3 {
+                    out.push(format!("poll {}", b(lvl)));
+                }
+                for _ in 0..r.range(5, 40) {
+                    out.push(format!("poll {}", b(other)));
+                }
+                for _ in 0..cap + 5 {
+                    out.push(format!("poll {}", b(lvl)));
+                }
+                for k in 0..2 * cap + 3 {
+                    let x = if k % cap < cap / 3 { lvl } else { other };
+                    out.push(format!("poll {}", b(x)));
+                }
+                left -= 5 * need as i64;
+            }
+            3 => {
+                // allowance-many differing samples right after a reported press (which of them leak into the value?)
+                for _ in 0..need + 1 {
+                    out.push(format!("poll {}", b(lvl)));
+                }
+                let disc = (sr as usize) * 2 / 1000 + 2;
+                for k in 0..disc {
+                    out.push(format!("poll {}", b((lvl * 0.3 + 0.001 * k as f32).min(boundary * 0.99))));
+                }
+                out.push(format!("poll {}", b(1.0)));
+                left -= need as i64 + disc as i64 + 3;
+            }
+            _ => {
+                // taps and glitch trains that must never add up
+                for _ in 0..r.range(3, 10) {
+                    for _ in 0..r.range(1, (need as u64 / 2).max(2)) {
+                        out.push(format!("poll {}", b(lvl)));
+                    }
+                    out.push(format!("poll {}", b(r.pick(&[1.0f32, boundary]))));
+                    if r.chance(1, 3) {
+                        out.push("jp".into());
+                    }
+                }
+                out.push(format!("poll {}", b(lvl)));
+                out.push("jp".into());
+                left -= 5 * need as i64;
+            }
+        }
+    }
+}
+
 pub fn stream(name: &str, seed: u64, n: usize) -> Vec<String> {
     let mut r = Rng::new(seed.wrapping_mul(0x100_0000_01B3) ^ name.bytes().fold(0u64, |a, c| a.wrapping_mul(131) + c as u64));
     let mut out = Vec::with_capacity(n + 16);
     match name {
         "adsr" => adsr(&mut r, n, &mut out),
+        "lfo_fine" => lfo_fine(&mut r, n, &mut out),
+        "adsr_fine" => adsr_fine(&mut r, n, &mut out),
+        "midi_fine" => midi_fine(&mut r, n, &mut out),
+        "quant_fine" => quant_fine(&mut r, n, &mut out),
+        "glide_fine" => glide_fine(&mut r, n, &mut out),
+        "ribbon_fine" => ribbon_fine(&mut r, n, &mut out),
         "lfo" => lfo(&mut r, n, &mut out),
         "quant" => quant(&mut r, n, &mut out),
         "midi" => midi(&mut r, n, &mut out),
